@@ -33,7 +33,7 @@ struct PartSpec { int r[4]; int cls; int mask; int frac; };
 
 template <class Real>
 void realizePositions(const FmmCase& c, bool dyadic, int dist, const std::vector<PartSpec>& specs,
-                      std::vector<Pos4>& out, bool noCoincident, bool interiorOnly, bool noCentre = false, bool exactFacesOnly = false){
+                      std::vector<Pos4>& out, bool noCoincident, bool interiorOnly, bool noCentre = false, bool exactFacesOnly = false, bool ulpFacesGeneric = false){
     rm::Geo<Real> g(c);
     const long n = g.n;
     out.clear();
@@ -63,6 +63,7 @@ void realizePositions(const FmmCase& c, bool dyadic, int dist, const std::vector
         if(dist == 5) cls = 2;
         if(interiorOnly) cls = 1;
         Pos4 p{{0,0,0,0}};
+        bool keepUnsound = false;
         for(int d = 0 ; d < c.dim ; ++d){
             const bool special = (s.mask >> d) & 1;
             long double t = 0.5L;
@@ -71,8 +72,14 @@ void realizePositions(const FmmCase& c, bool dyadic, int dist, const std::vector
             if(exactFacesOnly && !dyadic && k == 3) k = 4;
             // numerical kernels (noCoincident): two particles one ulp apart (5e-324 next to a face at 0) make 1/r overflow - outside the
             // domain in which "agrees with the direct sum" is meaningful; the ulp classes are for the combinatorial properties only
-            if(noCoincident && k == 6) k = 4;
-            if(noCoincident && k == 7) k = 2;
+            // exception (ulpFacesGeneric, uniform kernel): in a generic box whose centre is within one width of the origin a particle may sit
+            // 1-3 ulps inside a cell face - the library and the kernel then compute the leaf bounds with different roundings and the
+            // kernel's local coordinate leaves [-1,1] by a few ulps (its clamp). The model cannot decide the leaf of such a particle
+            // (kept although "unsound"): only oracles that do not depend on the leaf (direct sum) may use these cases.
+            bool ulpGeneric = false;
+            if(noCoincident && (k == 6 || k == 7) && ulpFacesGeneric && !dyadic && std::fabs(c.center[d]) <= c.width[d]) ulpGeneric = true;
+            if(noCoincident && k == 6 && !ulpGeneric) k = 4;
+            if(noCoincident && k == 7 && !ulpGeneric) k = 2;
             long double fr = (long double)(((s.frac * (d + 1) * 2654435761u) >> 7) % 1024 + 1) / 1026.0L;
             if(noCentre && fr == 0.5L) fr = 514.0L / 1026.0L;
             switch(k){
@@ -82,14 +89,22 @@ void realizePositions(const FmmCase& c, bool dyadic, int dist, const std::vector
             case 2: t = dyadic ? 0.0L : 1.0L / 1026.0L; break;
             case 3: cc[d] = n - 1; t = 1.0L; break;
             case 4: t = dyadic ? 1.0L - 1.0L / 1024.0L : 1025.0L / 1026.0L; break;
-            case 6: t = dyadic ? 1.0L : 1025.0L / 1026.0L; break;       // dyadic: the representable value next below the upper face of the cell (set below)
-            case 7: t = dyadic ? 0.0L : 1.0L / 1026.0L; break;          // dyadic: the representable value next above the lower face of the cell
+            case 6: t = (dyadic || ulpGeneric) ? 1.0L : 1025.0L / 1026.0L; break;       // the representable value(s) next below the upper face of the cell (set below)
+            case 7: t = (dyadic || ulpGeneric) ? 0.0L : 1.0L / 1026.0L; break;          // the representable value(s) next above the lower face of the cell
             }
             if(interiorOnly){ t = 0.07L + 0.86L * fr; if(std::fabs((double)(t - 0.5L)) < 0.03) t += 0.06L; }
             long double x = (long double)g.corner[d] + ((long double)cc[d] + t) * (long double)g.leafw[d];
             Real xr = Real(x);
             if(dyadic && !interiorOnly && k == 6) xr = std::nextafter(xr, -std::numeric_limits<Real>::infinity());
             if(dyadic && !interiorOnly && k == 7) xr = std::nextafter(xr, std::numeric_limits<Real>::infinity());
+            if(ulpGeneric && !interiorOnly){
+                // only faces whose coordinate is small compared with the leaf width (the overshoot of the kernel's local coordinate is
+                // ~ eps |x| / (leaf width / 2); beyond 10 eps the kernel's own assertion fires: known finding F-UNIF-ROOTS-ASSERT, excluded
+                // by construction), and not next to 0 (denormal distances between two such particles)
+                const double ax = std::fabs((double)xr), lw = double(g.leafw[d]);
+                if(ax < 1e-3 * lw || ax > 1.5 * lw){ ulpGeneric = false; xr = Real((long double)g.corner[d] + ((long double)cc[d] + 0.37L) * (long double)g.leafw[d]); }
+                else{ xr = std::nextafter(xr, (k == 6 ? -1 : 1) * std::numeric_limits<Real>::infinity()); keepUnsound = true; }
+            }
             // documented precondition, evaluated as the library will evaluate it
             for(int it = 0 ; it < 8 ; ++it){
                 volatile Real rel = xr - g.corner[d];
@@ -100,7 +115,7 @@ void realizePositions(const FmmCase& c, bool dyadic, int dist, const std::vector
             p[d] = double(xr);
         }
         rm::Locate l = g.locate(p);
-        if(!l.sound || !l.inBox){
+        if((!l.sound && !keepUnsound) || !l.inBox){
             // fall back to the centre of the intended leaf (always unambiguous)
             for(int d = 0 ; d < c.dim ; ++d){
                 long double x = (long double)g.corner[d] + ((long double)cc[d] + (noCentre ? 0.25L + 0.0625L * d : 0.5L)) * (long double)g.leafw[d];
@@ -196,8 +211,8 @@ FmmCase genCase(const GenCfg& g){
     // keep the expected cost bounded: fewer particles on deep, high dimensional trees
     int maxN = g.maxN;
     auto specs = genSpecs(maxN);
-    if(c.real == 1) realizePositions<float>(c, dyadic, dist, specs, c.pos, g.noCoincident, g.interiorOnly, g.noCentre, g.exactFacesOnly);
-    else realizePositions<double>(c, dyadic, dist, specs, c.pos, g.noCoincident, g.interiorOnly, g.noCentre, g.exactFacesOnly);
+    if(c.real == 1) realizePositions<float>(c, dyadic, dist, specs, c.pos, g.noCoincident, g.interiorOnly, g.noCentre, g.exactFacesOnly, g.ulpFacesGeneric);
+    else realizePositions<double>(c, dyadic, dist, specs, c.pos, g.noCoincident, g.interiorOnly, g.noCentre, g.exactFacesOnly, g.ulpFacesGeneric);
     if(g.tsm){
         c.tsm = 1;
         const int tdist = U(0, 7);
@@ -205,8 +220,8 @@ FmmCase genCase(const GenCfg& g){
         const int rel = U(0, 4);   // 0 independent, 1 identical positions, 2 disjoint halves, 3 single leaf for one side
         if(rel == 1){ c.tpos = c.pos; }
         else{
-            if(c.real == 1) realizePositions<float>(c, dyadic, rel == 3 ? 2 : tdist, tspecs, c.tpos, g.noCoincident, g.interiorOnly, g.noCentre, g.exactFacesOnly);
-            else realizePositions<double>(c, dyadic, rel == 3 ? 2 : tdist, tspecs, c.tpos, g.noCoincident, g.interiorOnly, g.noCentre, g.exactFacesOnly);
+            if(c.real == 1) realizePositions<float>(c, dyadic, rel == 3 ? 2 : tdist, tspecs, c.tpos, g.noCoincident, g.interiorOnly, g.noCentre, g.exactFacesOnly, g.ulpFacesGeneric);
+            else realizePositions<double>(c, dyadic, rel == 3 ? 2 : tdist, tspecs, c.tpos, g.noCoincident, g.interiorOnly, g.noCentre, g.exactFacesOnly, g.ulpFacesGeneric);
             if(rel == 2){
                 // sources in the lower half of dimension 0, targets in the upper half (mirror when needed)
                 auto mirror = [&](std::vector<Pos4>& v, bool upper){
